@@ -14,7 +14,8 @@ EXPLANATION = (
     "comparison handler->accepted Ordering values), each cell of which must map a name to the same "
     "name; (R2) no statement block is emitted twice; (R3) no source of nondeterminism (time, random, "
     "environment, threads, hash-map iteration order) is reachable from parse/lint/generate/interpret "
-    "outside the program's own I/O built-ins.")
+    "outside the program's own I/O built-ins; (R4) every value stored into a variable or used as a FOR "
+    "limit is converted to the target's type first (shared with C06.R2).")
 NOT_DECIDED = ["agreement of printed output with the reference semantics for every program and value"]
 
 # operator name -> Ordering values for which the comparison holds
@@ -223,3 +224,5 @@ def run(ctx):
     r1_dispatch(ctx)
     c15.r1_single_emission(ctx, "C01.R2")
     r3_determinism(ctx)
+    from . import c06
+    c06.r2_store_routes(ctx, "C01.R4")
